@@ -95,7 +95,10 @@ func (pr *ActiveTestResp) IDecode(data []byte) error {
 	defer buf.Release()
 
 	pr.Header = smgp.ReadHeader(buf)
-	pr.Reserved = buf.ReadUint8()
+	// SMGP 3.0.3 defines Active_Test_Resp without a body: accept the 12-octet form as well
+	if buf.Remaining() > 0 {
+		pr.Reserved = buf.ReadUint8()
+	}
 
 	return buf.Error()
 }
